@@ -23,7 +23,10 @@ func RepoDir() string {
 // Tokens is the lexer vocabulary (literals, layout, hostile characters) used for insertions.
 var Tokens = []string{"model", "module", "schema", "1.1", "type", "extend", "relations", "define", "condition", "with", "from", "and", "or", "but not",
 	"[", "]", "(", ")", ":", ",", "#", "*", "{", "}", "<", ">", "list", "map", "int", "string", "\n", "\n  ", "\n    ", " ", "\t", "x", "user", "\r\n", "\r",
-	"\"", "'", "//", "\\", "\f", "\x00", "é", "a.b", "-", "==", "&&", "||", "!", "?", "+", "/", "%", ".", "1", "1u", "0x1F", "1.5e3", "true", "null", "in", "relation", "b\"x\"", "r'x'", "\"\"\"", "$", "@", ";", "=", "&", "|", "~", "^", " ", " "}
+	"\"", "'", "//", "\\", "\f", "\x00", "é", "a.b", "-", "==", "&&", "||", "!", "?", "+", "/", "%", ".", "1", "1u", "0x1F", "1.5e3", "true", "null", "in", "relation", "b\"x\"", "r'x'", "\"\"\"", "$", "@", ";", "=", "&", "|", "~", "^",
+	// comment openers next to string delimiters (the comment pre-pass works on raw lines, the lexer on what is left)
+	"\" #\"", "\"a #\"", " #", "\"x # y\"", "' #'", " # \"", "\" # c", "#\"", " #\n",
+	" ", " "}
 
 // Corpus loads the DSL texts of the repository's shared test data (sorted, deterministic).
 func Corpus() []string {
